@@ -47,6 +47,8 @@ def main():
     if p.returncode != 0:
         print("workload failed: " + p.stderr[-800:])
         return 1
+    # the harness answers `edge` ops from what this run showed (same binary, moments ago)
+    open(f"{harness}/target/c38-observed.txt", "w").write(p.stdout)
     edges, sites, complete = [], {}, False
     for l in p.stdout.splitlines():
         m = re.match(r"# edge (.*) -> (.*) same_instance=(true|false) held at (\S+)\((.)\) acquired at (\S+)\((.)\) x(\d+)$", l)
@@ -112,6 +114,11 @@ def main():
                     if re.search(r"\btrace_(read_|write_)?lock!\(", line) and not line.lstrip().startswith("//"):
                         total_sites.add((os.path.relpath(path, repo), k))
     hit = {s for s in sites if s in total_sites}
+    missed = sorted(total_sites - hit)
+    by_file = {}
+    for f_, l_ in missed:
+        by_file.setdefault(f_.replace("lib/src/", ""), []).append(l_)
+    missed_txt = "; ".join(f"{f_}:{','.join(map(str, ls))}" for f_, ls in sorted(by_file.items()))
 
     def q(s):
         return '"' + s.replace("\\", "\\\\").replace('"', '\\"') + '"'
@@ -157,7 +164,7 @@ def main():
         open(path, "w").write(text)
     print(f"{len(classes)} lock classes, {len(pairs)} nestings ({len(ranked)} ranked, {len(cyclic)} inside a cycle, "
           f"{len(inversions)} inverted pairs); executed {len(hit)} of {len(total_sites)} trace_*lock! call sites in lib/src/server + lib/src/core; "
-          f"{'rewritten' if not same else 'unchanged'}")
+          f"{'rewritten' if not same else 'unchanged'}; sites not executed: {missed_txt}")
     return 0
 
 
